@@ -446,11 +446,19 @@ def clip(s, n):
     return s if len(s) <= n else s[:n // 2] + "\n...[%d bytes left out]...\n" % (len(s) - n) + s[-n // 2:]
 
 
+_CONFIRMED_HANGS = 0
+
+
 def observe(binary, argv, cwd, keys, out="out", limit=30.0, long_limit=600.0, env=None):
     """one run of thriftgo. A run that exceeds `limit` is repeated once with `long_limit` (a loaded machine
     must not turn a slow crash into a hang); only a run that exceeds that too is a hang."""
     out_dir = os.path.join(cwd, out)
     res = None
+    # once a few runs have been confirmed as hangs with the long limit (a tree that hangs on a whole class of inputs),
+    # later slow runs get a shorter second limit, so that the check still ends with a verdict
+    global _CONFIRMED_HANGS
+    if _CONFIRMED_HANGS >= 3:
+        long_limit = min(long_limit, 3 * limit)
     for lim in (limit, long_limit):
         if os.path.isdir(out_dir):
             import shutil
@@ -466,6 +474,8 @@ def observe(binary, argv, cwd, keys, out="out", limit=30.0, long_limit=600.0, en
             res = (None, (ex.stdout or b"").decode("utf-8", "replace"), (ex.stderr or b"").decode("utf-8", "replace"),
                    time.time() - t0)
     rc, so, se, wall = res
+    if rc is None:
+        _CONFIRMED_HANGS += 1
     text = so + "\n" + se
     if "files" in keys:            # a program JSON instead of the key table
         keys = go_file_keys(keys)
